@@ -412,6 +412,113 @@ def replay_witnesses(chk: Check):
     }
 
 
+
+# ------------------------------------------------------------------ parse information of rules (engine part)
+def _walk_infos(canon, out):
+    if isinstance(canon, dict):
+        if 'dict' in canon:
+            d = canon['dict']
+            if d.get('parseinfo') is not None:
+                out.append(d['parseinfo'])
+            for k, v in d.items():
+                if k not in ('parseinfo', '__parseinfo__'):
+                    _walk_infos(v, out)
+        else:
+            for v in canon.values():
+                _walk_infos(v, out)
+    elif isinstance(canon, list):
+        for x in canon:
+            _walk_infos(x, out)
+
+
+def shard_parseinfo(col, shard_i, ngrammars, ninputs):
+    """grammars with named rules x inputs with parseinfo on: implementation vs engine model (rule, pos, endpos, line,
+    endline of every dict result) and the property oracle on the implementation."""
+    import enginelib as E
+    import enginegen as G
+    import enginerun as R
+    mr = ModelRun('Engine')
+    rng = col.rng
+    cases = []
+    for gi in range(ngrammars):
+        cfg = G.GenCfg(names=0.3, overrides=0.0, dots=0.0, skipto=0.0, consts=0.0)
+        g = G.gen_grammar(rng, cfg, depth=rng.choice([2, 3]))
+        # make every rule produce a dict: wrap the body in a named group, and let some rules match empty
+        rules = []
+        for i, (n, d, e) in enumerate(g['rules']):
+            body = ('named', False, 'val', ('group', e)) if rng.random() < 0.7 else e
+            if i > 0 and rng.random() < 0.3:
+                body = ('seq', [('named', False, 'opt', ('opt', ('tok', 'zz'))), body]) if rng.random() < 0.5 else ('named', False, 'opt', ('opt', ('tok', 'zz')))
+            rules.append((n, d, body))
+        g['rules'] = rules
+        both = rng.random() < 0.6
+        if both or rng.random() < 0.3:
+            g['directives']['comments'] = r'\(\*.*?\*\)'
+        if both or rng.random() < 0.3:
+            g['directives']['eol_comments'] = r'#[^\n]*'
+        gaps = [' ', ' ', '\n', '\r\n', '  ', '\t']
+        if 'comments' in g['directives']:
+            gaps += [' (* c *) ', '(* c *)']
+        if 'eol_comments' in g['directives']:
+            gaps += [' # e\n', '# e\n']
+        if both:
+            gaps += ['(* c *)# e\n', ' (* c *)# e\n ', '# e\n(* c *)']
+        for _ in range(ninputs):
+            lex = G.sample_sentence(rng, g, g['rules'][0][2])
+            t = G.join_lexemes(rng, lex, gaps=tuple(gaps))
+            t = rng.choice(['', '', ' ', '\n'] + gaps[-2:]) + t + rng.choice(['', '\n', '\r\n', ' \n', '\r'] + gaps[-1:])
+            cases.append(R.Case(g, t[:60], None, E.Settings(parseinfo=True)))
+    results = []
+    for off in range(0, len(cases), 400):
+        results += R.run_cases(mr, cases[off:off + 400])
+    for (c, io, mo, extra) in results:
+        fp = ['pinfo', E.grammar_text(c.g), c.text]
+        if mo is None:
+            col.case(fp, nontrivial=False)
+            continue
+        infos = []
+        if io[0] == 'ok':
+            _walk_infos(io[1], infos)
+        col.case(fp, nontrivial=bool(infos))
+        col.count('parseinfo.results.' + io[0])
+        col.count('parseinfo.entries', len(infos))
+        if mo[0] != 'recursion' and io != mo:
+            def bad(cc):
+                rr = R.run_cases(mr, [cc])[0]
+                return rr[2] is not None and rr[2][0] != 'recursion' and rr[1] != rr[2]
+            small = R.shrink_case(c, bad, budget=120)
+            rr = R.run_cases(mr, [small])[0]
+            col.violation(f'E1pinfo:{R.kinds_signature(small)}:{sorted(small.g["directives"])}:impl={rr[1][0]}:model={rr[2][0] if rr[2] else None}',
+                          'implementation and engine model disagree with parseinfo on (value or parseinfo entries)',
+                          {'correspondence': 'E1 with parseinfo', 'case': small.describe(), 'impl': rr[1], 'model': rr[2]})
+        names = {n for n, _, _ in c.g['rules']}
+        text = c.text
+        for inf in infos:
+            _, rule, pos, endpos, line, endline = inf
+            problems = []
+            if rule not in names:
+                problems.append('rule')
+            if not (0 <= pos <= endpos <= len(text)):
+                problems.append('offsets')
+            else:
+                if line != ref_info(text, pos, 'editor')[0] if pos <= len(text) else False:
+                    problems.append('line')
+                if endline != ref_info(text, endpos, 'editor')[0]:
+                    problems.append('endline')
+                tokn = rule.lstrip('_')[:1].isupper()      # upper-case rules do not skip whitespace at entry
+                if not tokn and pos < endpos and text[pos].isspace():
+                    problems.append('starts-in-whitespace')
+                if not tokn and pos < endpos and (text.startswith('(*', pos) and 'comments' in c.g['directives']
+                                     or text.startswith('#', pos) and 'eol_comments' in c.g['directives']):
+                    problems.append('starts-in-comment')
+            if problems:
+                col.violation('oracle:parseinfo:' + '+'.join(problems),
+                              f'parseinfo {inf} does not delimit the text consumed / has the wrong line',
+                              {'oracle': 'parseinfo delimits', 'case': c.describe(), 'parseinfo': inf, 'problems': problems})
+    if cases:
+        col.sample(cases[len(cases) // 2].describe())
+
+
 def main():
     chk = Check(PID)
     chk.rule = ('every string over {a, space, LF, CR} up to length 5 (quick) / 6 (thorough) and random texts up to length 41 '
@@ -456,6 +563,14 @@ def main():
         chk.obligation('S1:Coq specification spec_info/spec_line = Python reference by regex split', 'correspondence',
                        nspec == 0, f'{nspec} differ')
         replay_witnesses(chk)
+        ok2, out2 = vlib.build_modelrun('Engine')
+        chk.obligation('modelrun_Engine builds', 'build', ok2, out2[-500:])
+        if ok2:
+            vlib.run_sharded(chk, shard_parseinfo, 14, extra=((8, 8) if chk.quick else (60, 12)))
+            chk.obligation('E1 with parseinfo: rule/pos/endpos/line/endline of every dict result vs the engine model', 'correspondence',
+                           not any(v['signature'].startswith('E1pinfo') for v in chk.violations))
+            chk.obligation('parseinfo delimits the consumed text and its line matches the start offset (implementation only)', 'oracle',
+                           not any(v['signature'].startswith('oracle:parseinfo') for v in chk.violations))
         chk.sample({'text': 'a\r\nb', 'reference': [ref_info('a\r\nb', p, 'editor') for p in range(5)]})
         chk.exhaustive = False
     return chk.finish()
